@@ -28,23 +28,39 @@ Profiles == {"distinct", "repeated_plasma"}
 \* the atomic-data provider handed to the call: two providers with different rate coefficients live in one session
 Providers == 1..2
 
-VARIABLES profile,   \* which set of profiles the caller owns in this session
+VARIABLES served,    \* [Providers -> 1..2]: which rate tables each provider object currently serves (a provider re-reads its
+                     \* repository on every request, so its answers change when the repository is updated)
+          profile,   \* which set of profiles the caller owns in this session
           inputs,    \* version of each caller-owned array (0 = as created); no action of the library may change it
           hist
-vars == <<profile, inputs, hist>>
+vars == <<served, profile, inputs, hist>>
 
-Init == profile \in Profiles /\ inputs = [ne |-> 0, te |-> 0, nd |-> 0, nel |-> 0] /\ hist = <<>>
+Init == served = [pv \in Providers |-> pv] /\ profile \in Profiles /\ inputs = [ne |-> 0, te |-> 0, nd |-> 0, nel |-> 0] /\ hist = <<>>
 Call(e, el, fr, rep, d, pv) ==
     /\ rep \in RepsOf(fr)
+    /\ UNCHANGED <<inputs, profile, served>>
+    /\ hist' = Append(hist, [entry |-> e, element |-> el, front |-> fr, rep |-> rep, donor |-> d, provider |-> pv, tables |-> served[pv]])
+\* the repository behind provider pv is updated: the same provider object serves other rate tables from now on
+Update(pv) ==
+    /\ served' = [served EXCEPT ![pv] = 3 - @]
     /\ UNCHANGED <<inputs, profile>>
-    /\ hist' = Append(hist, [entry |-> e, element |-> el, front |-> fr, rep |-> rep, donor |-> d, provider |-> pv])
+    /\ hist' = Append(hist, [entry |-> "repository_update", element |-> "-", front |-> "direct", rep |-> "-", donor |-> "none", provider |-> pv, tables |-> 3 - served[pv]])
 \* the second provider appears in the direct calls (the front-ends only wrap them)
 Next == Len(hist) < MaxHist /\ \E e \in Entries, el \in Elements, fr \in Fronts, rep \in Reps, d \in Donor, pv \in Providers :
-                                  (pv = 2 => fr = "direct" /\ rep \in {"scalar", "ndarray"}) /\ Call(e, el, fr, rep, d, pv)
+                                  \/ (pv = 2 => fr = "direct" /\ rep \in {"scalar", "ndarray"}) /\ Call(e, el, fr, rep, d, pv)
+                                  \/ (Len(hist) >= 1 /\ hist[Len(hist)].entry # "repository_update" /\ fr = "direct" /\ rep = "scalar" /\ d = "none"
+                                        /\ e = "fractional_abundance" /\ el = "helium" /\ Update(pv))
 Spec == Init /\ [][Next]_vars
+
+\* the shape  call ; repository update behind the same provider ; the same call again  (explored exhaustively in the quick tier)
+UCUNext == \/ /\ Len(hist) = 0
+              /\ \E e \in Entries, el \in Elements, rep \in {"scalar", "ndarray", "function1d"}, d \in Donor, pv \in Providers : Call(e, el, "direct", rep, d, pv)
+           \/ /\ Len(hist) = 1 /\ Update(hist[1].provider)
+           \/ /\ Len(hist) = 2 /\ Call(hist[1].entry, hist[1].element, "direct", hist[1].rep, hist[1].donor, hist[1].provider)
+UCUSpec == Init /\ [][UCUNext]_vars
 
 InputsUntouched == inputs = [ne |-> 0, te |-> 0, nd |-> 0, nel |-> 0]
 \* the result of a call is determined by this key alone (the harness compares equal keys across and within histories)
-ResultKey(c) == <<c.entry, c.element, c.donor, c.provider>>
+ResultKey(c) == <<c.entry, c.element, c.donor, c.tables>>
 Emit == PrintT(ToJson([calls |-> hist', profile |-> profile']))
 =============================================================================
